@@ -16,16 +16,16 @@ import warnings
 from .. import desc, edits, engine, gen
 from ..report import HarnessError
 
-RULE = ('(a,b) texts = all alternations word,sep,word,... with <=k words over 13 word tokens x 6 separators, x 18 '
+RULE = ('(a,b) texts = all alternations word,sep,word,... with <=k words over 13 word tokens x 7 separators, x 18 '
         '(width, indent, offset) sets for wrap and x 12 (width, indent, nl) sets for rst; (c) every pre-formatter rendering '
         'captured from real generator runs + all parseable layouts of <=n lines from a 19-line grammar; non-trivial = '
         'distinct inputs on which the function changed something (output != input)')
 
 LONG = 'L' * 45
 WORDS = ['ab', 'x', 'c-d', LONG, '-', '+', '1.', '22.', 'end:', '"', '"""', 'b\\', 'q"']
-SEPS = [' ', '  ', '\t', '\n', '\n ', '\n\n']
+SEPS = [' ', '  ', '\t', '\n', '\n ', '\n\n', ' \n']
 WORDS_SMALL = ['ab', LONG, '-', '1.', 'end:', 'b\\']
-SEPS_SMALL = [' ', '\n', '\n ', '\n\n']
+SEPS_SMALL = [' ', '\n', '\n ', '\n\n', ' \n']
 WRAP_PARAMS = [(w, i, o) for w in (8, 16, 40) for i in (0, 4) for o in (0, 3, w - 1)]
 RST_PARAMS = [(w, i, nl) for w in (16, 40, 72) for i in (0, 4) for nl in (None, True)]
 
